@@ -72,8 +72,8 @@ class Built:
                     kw["class_thresholds"] = {ErrorClass[c]: n for c, n in br["class_thresholds"].items()}
                 self.breaker = RecBreaker(env, **kw)
 
-        bs_async = is_async and place.get("bs_async", False)
-        sl_kind = "async" if (is_async and place.get("sleeper_kind", "async") == "async") else "sync"
+        bs_async = is_async and place.get("bs_async", False)     # False | True (coroutine) | "aw" (non-coroutine awaitable)
+        sl_kind = place.get("sleeper_kind", "async") if is_async else "sync"   # sync | async | aw
 
         def trio(key, make):
             """(policy-level, call-level) stubs.  The decorator has no per-call sleep
